@@ -5,7 +5,11 @@ VERIF = os.path.dirname(os.path.dirname(os.path.abspath(__file__)))
 
 NOTE_COMMON = ("trusted: Coq 8.16.1 kernel; extraction with ExtrOcamlBasic only; ocaml/judge.ml glue; harness/drive.c; "
                "case generators. The C sources are code under test, tied to the Coq model by the correspondence run "
-               "(implementation output decided by the extracted judge), not by a refinement proof. ")
+               "(implementation output decided by the extracted judge), not by a refinement proof; the pure leaf functions "
+               "(moduloTernary, moduloNonnegative, projectSignedHash, element encoding) are regenerated from the C text on "
+               "every run by tools/c2gallina.py and their specifications proved about the generated definitions. Where the "
+               "property names a command line tool as observation point, the tool is run on files and judged byte file to "
+               "byte file by extracted judges (coq/CliModel.v, tools/clilib.py). ")
 
 P = {}
 P["C01"] = dict(cat="proof",
@@ -59,7 +63,9 @@ P["C08"] = dict(cat="proof",
     text="Coq: SP-reducibility is hereditary (SP_hereditary, general signed-embedding form), hence an irreducible non-empty remainder "
          "refutes SP: the certificate (genuine reductions in order + irreducible remainder) decides the verdict for every size "
          "(cert_verdict); greedy oracle = definition; violator check sound; judge soundness. Tie: all four entry points x output "
-         "subsets x maxNumReductions x stale caller counters, on the real hash range and with the range forced to 3/5 (17/2 in thorough).",
+         "subsets x every value of maxNumReductions (SIZE_MAX exactly when exceeded: C08_reduction_bound_reported_exactly) x stale caller "
+         "counters, on the real hash range and with the range forced to 3/5 (17/2 in thorough); the C text of projectSignedHash is translated "
+         "and proved overflow-free and canonical.",
     note=NOTE_COMMON + "2-separation check (ranks of the off-diagonal blocks) is executable but its soundness lemma is not stated; hash independence is "
          "established by running the same streams on forced-collision builds (hook DISCOPT_CMR_VERIF_HASH_RANGE).",
     tech="Coq proof of SP heredity + verified certificate checker run on every output, across forced hash ranges", ref="DESIGN.md C08")
